@@ -746,7 +746,16 @@ impl<'r> Gen<'r> {
                 }
                 _ => {
                     if self.rng.chance(1, 3) {
-                        out.push(Stmt::Return(None));
+                        // `return;` or `return <value>;` (the value of a handler is discarded, its effects are not):
+                        // literals, enumerators, locals and compound expressions of every scalar type
+                        if self.rng.chance(1, 2) {
+                            out.push(Stmt::Return(None));
+                        } else {
+                            let t = *self.rng.pick(&[Ty::Int, Ty::Str, Ty::Bool, Ty::Double]);
+                            let d = self.rng.below(2);
+                            let e = self.expr(t, d);
+                            out.push(Stmt::Return(Some(e)));
+                        }
                     } else {
                         let e = self.expr(Ty::Int, depth.min(1));
                         out.push(Stmt::Expr(as_(e, &["void"])));
